@@ -1,0 +1,49 @@
+//go:build verif
+
+// Contracts for package kinesis, checked by /verif (govc). Ghost functions and
+// comments only: the verif tag cannot change behaviour.
+package kinesis
+
+func forall(lo, hi int, f func(int) bool) bool {
+	for i := lo; i < hi; i++ {
+		if !f(i) {
+			return false
+		}
+	}
+	return true
+}
+
+// ---- math/big (assumed): a *big.Int holds a number (ghost field val); SetBytes/Bytes convert
+// between non-negative numbers and their big-endian byte strings and need a non-nil receiver.
+var ghostBigOf func(b []byte) int
+
+//@ type ext:big.Int
+//@   ghostfield val int
+
+//@ func ext:big.Int.SetBytes
+//@   trusted
+//@   requires self != nil
+//@   modifies self.val
+//@   ensures result == self && self.val == ghostBigOf(arg0)
+
+//@ func ext:big.Int.Bytes
+//@   trusted
+//@   requires self != nil
+//@   modifies nothing
+//@   ensures ghostBigOf(result) == self.val
+
+// ---- splitter state (C16): a shard written into the splitter checkpoint is read back
+// unchanged - for every shard, in particular without dereferencing a nil number.
+//@ func newSourceSplitterShardFromProto
+//@   property C16
+//@   requires shard != nil && shard.HashKeyRange != nil
+//@   ensures result.ShardID == shard.ShardId && same(result.ParentIDs, shard.ParentShardIds)
+//@   ensures result.HashKeyRange.Start != nil && result.HashKeyRange.End != nil
+//@   ensures result.HashKeyRange.Start.val == ghostBigOf(shard.HashKeyRange.Start) && result.HashKeyRange.End.val == ghostBigOf(shard.HashKeyRange.End)
+
+//@ func SourceSplitterShard.toProto
+//@   property C16
+//@   requires s.HashKeyRange.Start != nil && s.HashKeyRange.End != nil
+//@   modifies nothing
+//@   ensures result != nil && result.HashKeyRange != nil && result.ShardId == s.ShardID && same(result.ParentShardIds, s.ParentIDs)
+//@   ensures ghostBigOf(result.HashKeyRange.Start) == s.HashKeyRange.Start.val && ghostBigOf(result.HashKeyRange.End) == s.HashKeyRange.End.val
